@@ -323,6 +323,32 @@ fn scenario(rep: &mut Report, orc: &mut Oracle, rng: &mut Rng, scratch: &str, si
     let _ = std::fs::remove_file(lock_path(&file));
     return;
   }
+  // ---- the file itself at the three writes of an accepted append, byte for byte, against the model's
+  // sequence of writes (Model/MocSetBytes.v append_steps: data, index slot, metadata word)
+  if kind == 'A' && accepted {
+    let step = match point { "append:data_written" => 1, "append:index_stored" => 2, "append:meta_stored" | "append:data_flushed" | "append:flushed" => 3, _ => 0 };
+    if step > 0 {
+      if let Ok(bytes) = std::fs::read(&file) {
+        if bytes.len() <= 60_000 {
+          let t: Vec<&str> = upd_wire.split_whitespace().collect();
+          let mut req = format!("MSETA 1 {}", ents.len());
+          for e in &ents {
+            let m = &s.mocs[e.payload];
+            req.push_str(&format!(" {} {} {} {}", e.id, e.st, e.d, ranges_str(&m.r)));
+          }
+          req.push_str(&format!(" {} {} {} {} {}", t[2], t[1], newm.d, ranges_str(&newm.r), step));
+          let model = s.orc.ask(&req);
+          s.rep.evaluations += 1;
+          s.rep.count(&format!("append-write-{}-bytes-exact", step));
+          let hx: String = bytes.iter().map(|b| format!("{:02x}", b)).collect();
+          if model != format!("OK {}", hx) {
+            let pos = model.bytes().skip(3).zip(hx.bytes()).position(|(a, b)| a != b).unwrap_or(hx.len().min(model.len().saturating_sub(3))) / 2;
+            s.rep.corr_break("the moc-set file at a write boundary of an append differs from the model's sequence of writes", &format!("{} # {}", shown, req.chars().take(400).collect::<String>()), &format!("{} bytes, first difference at byte {}", bytes.len(), pos), &format!("{} bytes", model.len().saturating_sub(3) / 2), "crates/set append_moc == Model/MocSetBytes.v append_steps (C16_append_writes_every_prefix_decodes)");
+          }
+        }
+      }
+    }
+  }
   // ---- readers at the boundary
   if let Some(diff) = s.observe(&exp_view) {
     let _ = child.kill();
